@@ -8,8 +8,8 @@ import "fmt"
 // field refers to) must happen with that mutex held in the right mode.
 
 type tracked struct {
-	cell   *Val    // the struct cell
-	fields []*Val  // addresses of its fields
+	cell   *Val   // the struct cell
+	fields []*Val // addresses of its fields
 	mutex  map[*Val]bool
 }
 
